@@ -42,6 +42,10 @@ Base == {
   [id |-> "struct:funcs", kind |-> "fstruct", fields |-> << <<"F", SB("x")>> >>, structs |-> {}],
   (* map[interface{}]string: any key may be asked for, only "a" is there; a slice or hash can never be a key *)
   Mapc("map:vs:a=b", "any", << <<SB("a"), SB("b")>> >>),
+  (* a key type defined over string (type colour string): read with string keys like any string-keyed map *)
+  Mapc("map:cs:a=1,zz=2", "string", << <<SB("a"), IntV(1)>>, <<SB("zz"), IntV(2)>> >>),
+  (* a map that contains itself (under a key no lookup uses): a missing key is an error like on any other map *)
+  Mapc("map:self", "string", <<>>),
   (* keys of different types whose string forms coincide: the int 1 and the string "1" are two entries *)
   Mapc("map:mixed", "any", << <<IntV(1), SB("int")>>, <<SB("1"), SB("str")>>, <<SB("true"), SB("strtrue")>>, <<Bool(TRUE), SB("bool")>> >>),
   (* named container types that also have a String method (type tagList []string, type strMap map[string]string): containers still *)
@@ -57,7 +61,7 @@ HostKey(id) == [t |-> "go", id |-> id]
 Keys == << SB("a"), SB("zz"), SB("1"), SB(""), IntV(0), IntV(1), IntV(2), IntV(3), IntV(8), IntV(0 - 1), Num(96), Bool(TRUE), Bool(FALSE), Null,
            SB("Name"), SB("Age"), SB("Tags"), SB("Inner"), SB("secret"), SB("Greet"), SB("Nothing"), SB("Two"), SB("Sum"), SB("Rename"),
            SB("Self"), SB("hidden"), SB("Nope"), SB("k"), IntV(1000000), SB("Wait"), SB("Level"), IntV(300), SB("Own"), SB("ID"), SB("Title"), SB("Code"), SB("Base"), SB("hiddenBase"), SB("F"), SB("N"), SB("G"),
-           HostKey("slice:int:4,5,6"), HostKey("map:ss:k=v"), HostKey("func"),
+           HostKey("slice:int:4,5,6"), HostKey("map:ss:k=v"), HostKey("func"), HostKey("unhash"),
            (* host numbers far outside the window: no container has them as a key or index; the lookup is an error, never a panic *)
            HostKey("huge:1e19"), HostKey("huge:-1e19"), HostKey("huge:1e300"), HostKey("huge:inf"), HostKey("huge:-inf"), HostKey("huge:nan"),
            HostKey("big:uint64:max"), HostKey("big:int64:min"), HostKey("big:int64:max"), SB("1e30"), SB("Inf"), SB("-1e30"), SB("NaN") >>
@@ -85,9 +89,12 @@ MethodRef(name, args) ==
 
 GetAttrRef(d, key, args) ==
   CASE d.kind = "seq" ->
-         IF key.t = "num" /\ key.q % Scale = 0
-         THEN (IF key.q >= 0 /\ key.q \div Scale < Len(d.els) THEN Elem(d.els[(key.q \div Scale) + 1]) ELSE ErrR)
-         ELSE Either                                            \* stick coerces other keys to a number; not decided
+         (* an index is a whole number (or the decimal numeral of one); anything else - a word, a fraction, a boolean, null, a
+            host value - cannot be used as an index and is an error, not some element *)
+         LET idx == IF key.t = "num" /\ key.q % Scale = 0 THEN key.q \div Scale
+                    ELSE IF key.t = "str" /\ key.s # <<>> /\ Len(key.s) <= 6 /\ (\A q \in 1..Len(key.s) : key.s[q] >= 48 /\ key.s[q] <= 57) THEN DigitsVal(key.s, 0)
+                    ELSE 0 - 1 IN
+         IF idx >= 0 /\ idx < Len(d.els) THEN Elem(d.els[idx + 1]) ELSE ErrR
     [] d.kind = "map" ->
          IF d.keyt = "string"
          THEN (IF key.t = "str"
@@ -174,7 +181,8 @@ GetCase(j) == LET c == CSeq[(j % NC) + 1]
               IN [id |-> "C16-g" \o ToString(j), k |-> "getattr", cid |-> c.id, v |-> [t |-> "go", id |-> c.id], key |-> key, args |-> al,
                   struct |-> c.kind = "struct"]
 NGet == NC * NK * NA
-Picked == {j \in 0..(NGet - 1) : CSeq[(j % NC) + 1].kind = "struct" \/ (j \div (NC * NK)) % NA = 0} \cup (NGet..(NGet + NC - 1))
+Picked == {j \in 0..(NGet - 1) : CSeq[(j % NC) + 1].kind = "struct" \/ (j \div (NC * NK)) % NA = 0}
+          \cup {NGet + q - 1 : q \in {m \in 1..NC : CSeq[m].id # "map:self"}}        \* (the self-containing map is not traversed: describing its element would not end)
 Init == GenInit(v_lvl, v_idx)
 Next == GenNext(v_lvl, v_idx, Picked, 32)
 Out == v_lvl < 2 \/ Emit(IF v_idx < NGet THEN GetCase(v_idx)
